@@ -1,16 +1,25 @@
 pub mod c01;
 pub mod c02;
+pub mod c05;
+pub mod c06;
+pub mod c07;
+pub mod c08;
 pub mod c12;
 pub mod c13;
 pub mod c16;
 pub mod c17;
 
+pub mod hist;
 use crate::engine::Property;
 
 pub fn by_id(id: &str) -> Option<Box<dyn Property>> {
     Some(match id {
         "C01" => Box::new(c01::C01),
         "C02" => Box::new(c02::C02),
+        "C05" => Box::new(c05::C05),
+        "C06" => Box::new(c06::C06),
+        "C07" => Box::new(c07::C07),
+        "C08" => Box::new(c08::C08),
         "C12" => Box::new(c12::C12),
         "C13" => Box::new(c13::C13),
         "C16" => Box::new(c16::C16),
